@@ -458,13 +458,21 @@ def _navigation(ctx, tag0, di, cu, dies, recs, w, case, which):
                     if exp in by_off and not by_off[exp]['null'] and t.offset != exp:
                         ctx.fail('nav|ref|unit-relative', 'entry@%d: expected target %d got %r' % (r['offset'], exp, t.offset), case)
                     ctx.count('ref.unit')
-                elif f == 'DW_FORM_ref_addr' and which == 'units' and not (a.get('spec') or {}).get('sib'):
+                elif f == 'DW_FORM_ref_addr' and (which == 'units' or w.exp['units']) and not (a.get('spec') or {}).get('sib'):
                     t = d.get_DIE_from_attribute(name)
+                    # the target is an entry of .debug_info also when the referring entry sits in a .debug_types unit
+                    tr = next((x for eu in w.exp['units'] for x in eu['recs'] if x['offset'] == a['raw']), None)
                     if t.offset != a['raw']:
                         ctx.fail('nav|ref|ref_addr', 'entry@%d: expected target %d got %r' % (r['offset'], a['raw'], t.offset), case)
+                    elif tr is not None and not tr['null'] and (t.abbrev_code != tr['abbrev_code'] or t.size != tr['size'] or t.cu.cu_offset != next(
+                            eu['offset'] for eu in w.exp['units'] if any(x is tr for x in eu['recs']))):
+                        ctx.fail('nav|ref|ref_addr|%s|not-the-debug_info-entry' % which, 'entry@%d of %s: target %d must be the .debug_info entry with abbreviation code %d, size %d; got code %r size %r in the unit at %r' % (
+                            r['offset'], which, a['raw'], tr['abbrev_code'], tr['size'], t.abbrev_code, t.size, t.cu.cu_offset), case)
                     else:
                         # the target must be the same entry as in the owning unit's own iteration
                         ctx.count('ref.addr')
+                        if which == 'tunits':
+                            ctx.count('ref.addr.from-debug_types')
                 elif f == 'DW_FORM_ref_sig8' and w.exp['tunits'] and 'tu' in (a.get('spec') or {}):
                     t = d.get_DIE_from_attribute(name)
                     tu = next(u for u in w.exp['tunits'] if u['header']['signature'] == a['raw'])
